@@ -124,14 +124,29 @@ struct DsEngine {
 // ------------------------------------------------------------------ one shard
 struct Plan { bool thorough; uint64_t seed; bool light; };
 
-static void report(Engine& eng, vf::Result& r, CaseSpec c, const Outcome& first, std::set<std::string>& keys, int& minimized) {
+struct Pred { int type; bool self; uint32_t imm; };     // single-word disagreement already reported by this shard
+static bool neutralize(CaseSpec& c, const std::vector<Pred>& preds) {
+	bool changed = false;
+	for (int i = 0; i < prog_size(c.version); ++i) { Word w = get(c.prog, i); if (is_filler(w)) continue;
+		for (const Pred& p : preds) if (optab().type_of[w.op] == p.type && ((w.src & 7) == (w.dst & 7)) == p.self && w.imm == p.imm) { put(c.prog, i, filler()); changed = true; break; } }
+	return changed;
+}
+// Every disagreement is either attributed to an already reported single-word key (the program agrees once those words are
+// replaced by the filler) or minimised to a new key.  Nothing is left unexplained unless the budget is exhausted (-> incomplete).
+static void report(Engine& eng, vf::Result& r, CaseSpec c, const Outcome& first, std::set<std::string>& keys, int& minimized, std::vector<Pred>& preds) {
 	r.n["mismatches"]++;
-	if (minimized >= 8) { if (r.n["mismatches"] > 300) r.incomplete = true; return; }
+	if (!preds.empty()) {
+		CaseSpec t = c;
+		if (neutralize(t, preds)) { Outcome o = eng.run(t); r.n["disagreements_checked"]++; if (o.agree) { r.n["mismatches_attributed_to_reported_keys"]++; return; } c = t; }
+	}
+	if (minimized >= 12) { r.n["mismatches_unexplained"]++; r.incomplete = true; return; }
 	++minimized;
 	uint64_t runs = 0; Outcome o = minimize(eng, c, runs);
 	r.n["disagreements_checked"]++; r.n["minimizer_runs"] += runs;
 	if (o.agree) { vf::Violation v; v.key = "flaky"; v.what = "disagreement did not reproduce on re-run: " + first.what; v.replay = case_json(c); r.viol.push_back(v); return; }
 	std::string key = violation_key(c, o);
+	std::vector<int> live = live_slots(c);
+	if (live.size() == 1 && o.cls.rfind("emu:", 0) != 0) { Word w = get(c.prog, live[0]); preds.push_back(Pred{ optab().type_of[w.op], (w.src & 7) == (w.dst & 7), w.imm }); }
 	if (!keys.insert(key).second) return;
 	vf::Violation v; v.key = key; v.what = describe_case(c, o); v.replay = case_json(c); v.replay.set("first_difference", o.what);
 	r.viol.push_back(v);
@@ -139,14 +154,14 @@ static void report(Engine& eng, vf::Result& r, CaseSpec c, const Outcome& first,
 
 static vf::Result shard_main(const vf::Args& a, Env& env, const Plan& pl, int shard) {
 	vf::Result r; Engine eng(env);
-	std::set<std::string> keys; int minimized = 0;
+	std::set<std::string> keys; int minimized = 0; std::vector<Pred> preds;
 	auto one = [&](CaseSpec& c, const char* fam, bool sampled) {
 		c.family = fam;
 		Outcome o = eng.run(c);
 		r.n[sampled ? "programs_sampled" : "programs"]++; r.n[std::string("cases_") + fam]++;
 		if (c.mode) r.n["cases_light"]++; if (c.version == 2) r.n["cases_v2"]++; if (c.aes) r.n["cases_hard_aes"]++;
 		r.mx["guest_insns_per_case"] = std::max(r.mx["guest_insns_per_case"], o.guest_insns);
-		if (!o.agree) report(eng, r, c, o, keys, minimized);
+		if (!o.agree) report(eng, r, c, o, keys, minimized, preds);
 		else if (r.samples.size() < 1 && shard == 0) { Json s = case_json(c); s.set("program", vf::hex(c.prog, 160) + "..."); s.set("guest_instructions", (unsigned long long)o.guest_insns).set("result", "agree"); r.sample(s); }
 	};
 	auto stop = [&]() { if (r.incomplete) return true; if (a.expired()) { r.incomplete = true; return true; } return false; };
@@ -157,7 +172,7 @@ static vf::Result shard_main(const vf::Args& a, Env& env, const Plan& pl, int sh
 	// ---- (c) saturated / branch distance / thresholds / rounding: every program x every combination
 	{
 		std::vector<NamedProg> fc = family_c();
-		unsigned ncombo = SUBSET_PROFILE ? (pl.thorough ? 16 : 4) : 128;
+		unsigned ncombo = SUBSET_PROFILE ? (pl.thorough ? 32 : 8) : 128;
 		for (size_t p = 0; p < fc.size() && !stop(); ++p) for (int v = 1; v <= 2; ++v) for (unsigned k = 0; k < ncombo; ++k) {
 			if (!mine()) continue;
 			c.version = v; set_combo(c, SUBSET_PROFILE ? (unsigned)(k * 37 + p * 11 + v) : k, pl.light);
@@ -169,7 +184,7 @@ static vf::Result shard_main(const vf::Args& a, Env& env, const Plan& pl, int sh
 	}
 	// ---- (d) programs from the real generator (sampling floor)
 	{
-		uint64_t n = SUBSET_PROFILE ? (pl.thorough ? 256 : 48) : (pl.thorough ? 3000 : 400);
+		uint64_t n = SUBSET_PROFILE ? (pl.thorough ? 500 : 100) : (pl.thorough ? 3000 : 400);
 		for (uint64_t i = 0; i < n && !stop(); ++i) for (int v = 1; v <= 2; ++v) for (unsigned k = 0; k < (SUBSET_PROFILE ? 2u : 4u); ++k) {
 			if (!mine()) continue;
 			c.version = v; set_combo(c, (unsigned)(i * 13 + k * 37 + v), pl.light); build_random(env, c, i);
@@ -181,14 +196,16 @@ static vf::Result shard_main(const vf::Args& a, Env& env, const Plan& pl, int sh
 		FamB fb(pl.thorough);
 		for (uint64_t j = 0; j < fb.jobs() && !stop(); ++j) {
 			if (!mine()) continue;
-			set_combo(c, (unsigned)((j >> 1) * 29 + (j & 1) * 64 + j / 977), pl.light); fb.build(env, c, j);
-			one(c, "b_sequences", false);
+			for (unsigned q = 0; q < (pl.thorough ? 1u : 3u); ++q) {
+				set_combo(c, (unsigned)((j >> 1) * 29 + (j & 1) * 64 + j / 977 + q * 43), pl.light); fb.build(env, c, j);
+				one(c, "b_sequences", false);
+			}
 		}
 		r.mx["family_b_alphabet"] = fb.alpha.size(); r.mx["family_b_length"] = (uint64_t)fb.L;
 		// ---- (a) every instruction word, two packings x two versions
 		FamA fa(pl.thorough, pl.seed);
 		r.mx["family_a_words"] = fa.N; r.mx["family_a_imm_values"] = fa.imms.size(); r.mx["family_a_mod_values"] = fa.mods.size();
-		unsigned K = pl.thorough ? 1 : 2;
+		unsigned K = pl.thorough ? 1 : 4;
 		for (int packing = 0; packing < 2; ++packing) for (int v = 1; v <= 2; ++v) {
 			uint64_t np = fa.programs(v);
 			for (uint64_t k = 0; k < np && !stop(); ++k) {
@@ -305,26 +322,32 @@ static int do_bindcheck(const vf::Args& a, const std::string& work) {
 	std::vector<uint32_t> words(ws.begin(), ws.end());
 	std::string sfile = work + "/bind.s", ofile = work + "/bind.o", dfile = work + "/bind.dis";
 	{ std::ofstream f(sfile); f << ".text\n"; char b[32]; for (uint32_t w : words) { snprintf(b, sizeof b, ".inst 0x%08x\n", w); f << b; } }
-	std::string cmd = "clang --target=aarch64-linux-gnu -march=armv8-a+crypto -c '" + sfile + "' -o '" + ofile + "' && (llvm-objdump -d --triple=aarch64 --mattr=+crypto --no-show-raw-insn -M no-aliases '" + ofile +
-		"' 2>/dev/null || llvm-objdump-14 -d --triple=aarch64 --mattr=+crypto --no-show-raw-insn -M no-aliases '" + ofile + "') > '" + dfile + "'";
+	std::string od = "(llvm-objdump -d --triple=aarch64 --mattr=+crypto --no-show-raw-insn %s '" + ofile + "' 2>/dev/null || llvm-objdump-14 -d --triple=aarch64 --mattr=+crypto --no-show-raw-insn %s '" + ofile + "')";
+	auto odcmd = [&](const char* opt, const std::string& out) { std::string c = od; size_t p; while ((p = c.find("%s")) != std::string::npos) c.replace(p, 2, opt); return c + " > '" + out + "'"; };
+	std::string cmd = "clang --target=aarch64-linux-gnu -march=armv8-a+crypto -c '" + sfile + "' -o '" + ofile + "' && " + odcmd("-M no-aliases", dfile) + " && " + odcmd("", dfile + "2");
 	if (system(cmd.c_str())) { fprintf(stderr, "c19 --bindcheck: clang/llvm-objdump failed\n"); return 2; }
-	std::ifstream f(dfile); std::string line; std::vector<std::string> dis;
-	while (std::getline(f, line)) {
-		size_t p = line.find(':'); if (p == std::string::npos || p == 0 || p > 16) continue;
-		bool hexaddr = true; for (size_t i = 0; i < p; ++i) if (!isxdigit((unsigned char)line[i]) && line[i] != ' ') hexaddr = false;
-		if (!hexaddr || line.find('<') < p) continue;
-		size_t q = line.find_first_not_of(" \t", p + 1); if (q == std::string::npos) continue;
-		std::string t = line.substr(q); for (char& ch : t) if (ch == '\t') ch = ' ';
-		dis.push_back(t);
-	}
+	auto load = [&](const std::string& path) {
+		std::vector<std::string> v; std::ifstream f(path); std::string line;
+		while (std::getline(f, line)) {
+			size_t p = line.find(':'); if (p == std::string::npos || p == 0 || p > 16) continue;
+			bool hexaddr = true; for (size_t i = 0; i < p; ++i) if (!isxdigit((unsigned char)line[i]) && line[i] != ' ') hexaddr = false;
+			if (!hexaddr || line.find('<') < p) continue;
+			size_t q = line.find_first_not_of(" \t", p + 1); if (q == std::string::npos) continue;
+			std::string t = line.substr(q); for (char& ch : t) if (ch == '\t') ch = ' ';
+			v.push_back(t);
+		}
+		return v;
+	};
+	std::vector<std::string> dis = load(dfile), dis2 = load(dfile + "2");
+	if (dis2.size() != words.size()) { fprintf(stderr, "c19 --bindcheck: alias-mode disassembly has %zu lines for %zu words\n", dis2.size(), words.size()); return 2; }
 	if (dis.size() != words.size()) { fprintf(stderr, "c19 --bindcheck: %zu words but %zu disassembly lines\n", words.size(), dis.size()); return 2; }
 	int bad = 0, undefined = 0; (void)a;
 	for (size_t i = 0; i < words.size(); ++i) {
 		std::string mine = a64::Emu::describe(words[i], 4 * i), theirs = dis[i];
 		if (theirs.find("<unknown>") != std::string::npos || theirs.find("udf") == 0) { ++undefined; fprintf(stderr, "bindcheck: executed word 0x%08x is undefined for llvm-objdump (emulator: %s)\n", words[i], mine.c_str()); continue; }
-		std::string x = norm(mine), y = norm(theirs);
+		std::string x = norm(mine), y = norm(theirs), y2 = norm(dis2[i]);   // y: -M no-aliases, y2: default printing (LLVM 14 prints a bogus "lsl #3" for S=0 register offsets in no-aliases mode)
 		// printer aliases that LLVM 14 keeps even with -M no-aliases
-		if (x != y) {
+		if (x != y && x != y2) {
 			a64::Op o; a64::Emu::decode(words[i], o); std::string alt;
 			char b[128];
 			if (o.kind == a64::K_LOGIC_IMM && o.a == 1 && o.rn == 31) { snprintf(b, sizeof b, "mov%s,%lld", o.sf ? (o.rd == 31 ? "sp" : ("x" + std::to_string(o.rd)).c_str()) : ("w" + std::to_string(o.rd)).c_str(), (long long)(o.sf ? (int64_t)o.mask : (int64_t)(int32_t)o.mask)); alt = b; }
@@ -335,7 +358,8 @@ static int do_bindcheck(const vf::Args& a, const std::string& work) {
 			if (o.kind == a64::K_MRS_FPCR || o.kind == a64::K_MSR_FPCR) alt = x;
 			if (o.kind == a64::K_MOVI) { snprintf(b, sizeof b, "moviv%u.4s,%lld", o.rd, (long long)o.imm); alt = b; }
 			auto strip0 = [](std::string z) { size_t p; while ((p = z.find(",0]")) != std::string::npos) z.replace(p, 3, "]"); return z; };
-			if (alt != y && strip0(x) != strip0(y) && norm(alt) != y) {
+			if (o.kind == a64::K_BFM) { if (o.d < o.c) snprintf(b, sizeof b, "bfix%u,x%u,%u,%u", o.rd, o.rn, 64 - o.c, o.d + 1); else snprintf(b, sizeof b, "bfxilx%u,x%u,%u,%u", o.rd, o.rn, o.c, o.d - o.c + 1); alt = b; }
+			if (alt != y && alt != y2 && strip0(x) != strip0(y) && strip0(x) != strip0(y2) && norm(alt) != y) {
 				// LLVM negative immediates are printed signed; ours too.  Anything left is a genuine decoder disagreement.
 				++bad; fprintf(stderr, "bindcheck MISMATCH word 0x%08x: emulator '%s' llvm '%s'\n", words[i], mine.c_str(), theirs.c_str());
 			}
@@ -364,6 +388,7 @@ int main(int argc, char** argv) {
 	Plan pl; pl.thorough = a.thorough(); pl.seed = a.seed; pl.light = !a.opt.count("no-light");
 	Env env; make_env(env, pl.light);
 	vf::Result r = vf::run_shards(a, NSHARDS, [&](int s) { return shard_main(a, env, pl, s); });
+	{ std::set<std::string> seen; std::vector<vf::Violation> u; for (auto& v : r.viol) if (seen.insert(v.key).second) u.push_back(v); r.viol = u; }
 	const std::string child_out = a.get("child-result");
 	if (!child_out.empty()) { std::ofstream f(child_out); f << r.to_json().dump() << "\n"; return 0; }
 	// the 2048-iteration subset runs in the sibling executable built for the full profile
@@ -381,7 +406,7 @@ int main(int argc, char** argv) {
 			if (WIFEXITED(stt) && WEXITSTATUS(stt) == 0) {
 				vf::Result fr = vf::Result::from_json(Json::load(tmp)); unlink(tmp.c_str()); full_ran = true;
 				for (auto& kv : fr.n) { if (kv.first == "programs" || kv.first == "programs_sampled" || kv.first == "mismatches" || kv.first == "disagreements_checked" || kv.first == "guest_instructions") r.n[kv.first] += kv.second; r.n["full_profile_" + kv.first] += kv.second; }
-				for (auto& v : fr.viol) r.viol.push_back(v);
+				{ std::set<std::string> seen; for (auto& v : r.viol) seen.insert(v.key); for (auto& v : fr.viol) if (seen.insert(v.key).second) r.viol.push_back(v); }
 				r.incomplete |= fr.incomplete; r.tags.insert(fr.tags.begin(), fr.tags.end());
 			} else { fprintf(stderr, "c19: full-profile sibling failed: framework error\n"); return 2; }
 		}
